@@ -31,7 +31,7 @@ Print Assumptions C05_batch_independence.
 
 (* reading f1..fn: closed form of every record's context.  [recs] are the records of each file read alone. *)
 Theorem C05_multi_file_contexts :
-  forall (m : rmode) (fs : list file) (recs : list (list record)),
+  forall (m : ropts) (fs : list file) (recs : list (list record)),
   Forall2 (fun f rs => parse_file m (snd f) = Some rs) fs recs ->
   snd (read_files m fs) = spec_files 0 0 (combine (map fst fs) recs).
 Proof. exact (multi_file_contexts). Qed.
@@ -39,7 +39,7 @@ Print Assumptions C05_multi_file_contexts.
 
 (* inputs concatenate *)
 Theorem C05_inputs_concatenate :
-  forall (m : rmode) (fs : list file) (recs : list (list record)),
+  forall (m : ropts) (fs : list file) (recs : list (list record)),
   Forall2 (fun f rs => parse_file m (snd f) = Some rs) fs recs ->
   map fst (snd (read_files m fs)) = List.concat recs.
 Proof. exact (inputs_concatenate). Qed.
@@ -47,7 +47,7 @@ Print Assumptions C05_inputs_concatenate.
 
 (* NR counts 1..N across files *)
 Theorem C05_NR_counts_across_files :
-  forall (m : rmode) (fs : list file) (recs : list (list record)),
+  forall (m : ropts) (fs : list file) (recs : list (list record)),
   Forall2 (fun f rs => parse_file m (snd f) = Some rs) fs recs ->
   map (fun rc => nr (snd rc)) (snd (read_files m fs)) = zseq 1 (total_records recs).
 Proof. exact (nr_counts_across_files). Qed.
@@ -55,7 +55,7 @@ Print Assumptions C05_NR_counts_across_files.
 
 (* the end block sees the final NR (and FILENUM = number of files) *)
 Theorem C05_end_block_sees_final_NR :
-  forall (m : rmode) (fs : list file) (recs : list (list record)),
+  forall (m : ropts) (fs : list file) (recs : list (list record)),
   Forall2 (fun f rs => parse_file m (snd f) = Some rs) fs recs ->
   nr (rctx (fst (read_files m fs))) = Z.of_nat (total_records recs)
   /\ filenum (rctx (fst (read_files m fs))) = Z.of_nat (List.length fs)
@@ -73,16 +73,59 @@ Theorem C05_FNR_FILENAME_FILENUM_per_file :
 Proof. exact (fun name fn before rs => conj (number_from_fnr name fn before rs 1) (number_from_ctx name fn before rs 1)). Qed.
 Print Assumptions C05_FNR_FILENAME_FILENUM_per_file.
 
+(* ---- the side condition "verbs that do not consult the original record counters" ---- *)
+(* every modelled verb, seen as a function of records WITH contexts, is oblivious *)
+Theorem C05_modelled_verbs_are_oblivious : forall vc : vcode, oblivious (lift (verb_of vc)).
+Proof. exact modelled_verbs_oblivious. Qed.
+Print Assumptions C05_modelled_verbs_are_oblivious.
+
+Theorem C05_oblivious_closed_under_chain : forall a b : cverb, oblivious a -> oblivious b -> oblivious (cchain a b).
+Proof. exact oblivious_chain. Qed.
+Print Assumptions C05_oblivious_closed_under_chain.
+
+(* with contexts: the downstream process of a pipe renumbers the records it reads; the outputs agree with the chain as
+   soon as the downstream verb is oblivious (the upstream verb may be anything) *)
+Theorem C05_chain_equals_pipe_with_contexts :
+  forall (a b : cverb) (xs : list crec) (c : context) (name : bytes) (c' : context),
+  oblivious b ->
+  map fst (crun b (renumber name (map fst (crun a xs c))) c') = map fst (crun (cchain a b) xs c).
+Proof. exact chain_equals_pipe_oblivious. Qed.
+Print Assumptions C05_chain_equals_pipe_with_contexts.
+
+(* the side condition is necessary: `tac then put '$nr = NR'` differs from `tac | put '$nr = NR'` *)
+Theorem C05_chain_differs_from_pipe_for_NR_refuted :
+  exists (xs : list crec) (c : context),
+  map fst (crun cput_nr (renumber (B "(stdin)") (map fst (crun (lift v_tac) xs c))) c)
+  <> map fst (crun (cchain (lift v_tac) cput_nr) xs c).
+Proof. exact chain_differs_from_pipe_for_nr. Qed.
+Print Assumptions C05_chain_differs_from_pipe_for_NR_refuted.
+
 (* non-vacuity: a three-file CSV input with differing headers and an empty file meets the hypothesis; closed form evaluated *)
 Example C05_nonvacuous :
   let f1 := (B "f1.csv", [[(B "", B "a"); (B "", B "b")]; [(B "", B "1"); (B "", B "2")]; [(B "", B "3"); (B "", B "4")]]) in
   let f2 := (B "empty.csv", []) in
   let f3 := (B "f3.csv", [[(B "", B "c")]; [(B "", B "5")]]) in
-  Forall2 (fun f rs => parse_file MHeader (snd f) = Some rs) [f1; f2; f3]
+  Forall2 (fun f rs => parse_file (ROpts MHeader false true false) (snd f) = Some rs) [f1; f2; f3]
           [[[(B "a", B "1"); (B "b", B "2")]; [(B "a", B "3"); (B "b", B "4")]]; []; [[(B "c", B "5")]]]
-  /\ map snd (snd (read_files MHeader [f1; f2; f3]))
+  /\ map snd (snd (read_files (ROpts MHeader false true false) [f1; f2; f3]))
      = [Ctx (B "f1.csv") 1 1 1; Ctx (B "f1.csv") 1 2 2; Ctx (B "f3.csv") 3 3 1]
   /\ run (chain_list (map verb_of [VSortF (B "a"); VHead 2; VPutDot (B "z") (B "a") (B "!")]))
          [[(B "a", B "b")]; [(B "x", B "1")]; [(B "a", B "a")]; [(B "a", B "c")]]
      = [[(B "a", B "a"); (B "z", B "a!")]; [(B "a", B "b"); (B "z", B "b!")]].
 Proof. split; [repeat constructor|vm_compute; split; reflexivity]. Qed.
+
+(* reader details: field-name de-duplication, ragged lines with and without --allow-ragged-csv-input, csvlite schema change *)
+Example C05_reader_details :
+  let v (s : string) := (B "", B s) in
+  parse_file (ROpts MHeader false true false) [[v "a"%string; v "a"%string; v "b"%string]; [v "1"%string; v "2"%string; v "3"%string]]
+    = Some [[(B "a", B "1"); (B "a_2", B "2"); (B "b", B "3")]]
+  /\ parse_file (ROpts MHeader false false false) [[v "a"%string; v "a"%string; v "b"%string]; [v "1"%string; v "2"%string; v "3"%string]]
+    = Some [[(B "a", B "2"); (B "b", B "3")]]
+  /\ parse_file (ROpts MHeader false true false) [[v "a"%string; v "b"%string]; [v "1"%string]] = None
+  /\ parse_file (ROpts MHeader false true true) [[v "a"%string; v "b"%string]; [v "1"%string]; [v "1"%string; v "2"%string; v "3"%string]]
+    = Some [[(B "a", B "1")]; [(B "a", B "1"); (B "b", B "2"); (B "3", B "3")]]
+  /\ parse_file (ROpts MHeader true true true) [[v "a"%string; v "b"%string]; [v "1"%string]] = Some [[(B "a", B "1"); (B "b", B "")]]
+  /\ parse_file (ROpts MHeader true true false) [[v "a"%string]; [v "1"%string]; []; [v "b"%string; v "c"%string]; [v "2"%string; v "3"%string]]
+    = Some [[(B "a", B "1")]; [(B "b", B "2"); (B "c", B "3")]]
+  /\ parse_file (ROpts MPairs false true false) [[(B "a", B "1"); (B "a", B "2")]] = Some [[(B "a", B "1"); (B "a_2", B "2")]].
+Proof. vm_compute. repeat split; reflexivity. Qed.
